@@ -14,7 +14,7 @@ Directives (each on its own line):
   //@fn <file> <[Type::]name> [props=C01,C02] [stub] [ret=r] [impl=<Trait for Type>]
       ... contract lines (requires/ensures/decreases, copied verbatim after the signature) ...
       //@@loop <n> [iter=<ident>]       following lines are the loop's invariant/decreases clauses
-      //@@at <before|after|bodystart> "<anchor text>"    following lines are inserted there (proof blocks)
+      //@@at <before|after|bodystart|bodyend> "<anchor text>"    following lines are inserted there (proof blocks)
       //@@rewrite "<from>" => "<to>"    listed textual rewrite of the body (reported in evidence)
       //@@finding <ID>                following lines (a `proof { assume(..); }`) are inserted at body start ONLY in
                                       the 'restricted' run of a known finding (DESIGN.md 1.4)
@@ -601,6 +601,10 @@ def extract_fn(repo, rel, qualname, contract_lines, loops, ats, rewrites, stub=F
         if where_ == 'bodystart':
             body = '{\n' + ins + body[1:]
             continue
+        if where_ == 'bodyend':
+            k = body.rstrip().rfind('}')
+            body = body[:k] + ins + body[k:]
+            continue
         cnt = body.count(anchor)
         if cnt != 1:
             raise ExtractError("anchor %r occurs %d times in %s (need exactly 1)" % (anchor, cnt, qualname))
@@ -728,7 +732,7 @@ def process_template(template_path, repo_root, include_dirs=(), restrict=()):
                     loops[int(tk2[1])] = spec
                     cur = spec['lines']
                 elif t.startswith('//@@at'):
-                    mm = re.match(r'//@@at\s+(before|after|bodystart)(?:\s+"(.*)")?\s*$', t)
+                    mm = re.match(r'//@@at\s+(before|after|bodystart|bodyend)(?:\s+"(.*)")?\s*$', t)
                     if not mm:
                         raise ExtractError("bad //@@at line: %s" % t)
                     buf = []
